@@ -436,3 +436,100 @@ Definition mix_eqb (tbl : vec) (ops : list mop) (reads : vec) (flags : list bool
   list_eqb Bool.eqb f flags &&
   Nat.eqb (length r) (length reads) &&
   forallb (fun b : bool => b) (map2 (fun a b => qapprox_scaled (Qabs b) a b) r reads).
+
+(* ====================================================================================== *)
+(* Stream.copy (thermosteam/_stream.py; also __copy__, and MultiStream inherits it): the new stream
+   gets `self._imol.copy()` and `self._thermal_condition.copy()` -- its own flows, T and phase with the
+   values of the original -- and then `new.reset_cache()`: a NEW key list [None, None] and a NEW, empty
+   dictionary.  (`thermo or self._thermo`: with no package, or the stream's own package, nothing is
+   re-indexed.)  Nothing of the original is touched.  So where a stream and its proxies are ONE
+   (state, memo) pair, every copy is ANOTHER pair; the streams of a program form a heap of such pairs,
+   and every read / change / reaction addresses one of them. *)
+Definition sheap := list (pstream * hcache).
+Definition hdflt : pstream * hcache := (mkP [] 0 0, cache0).
+
+Inductive hsop :=
+| HOn (i : nat) (o : sop)         (* [o] through any handle of stream i *)
+| HCopyS (i : nat).               (* stream i .copy(): appended to the heap *)
+
+Fixpoint hset {A} (h : list A) (i : nat) (x : A) : list A :=
+  match h, i with
+  | [], _ => []
+  | _ :: t, O => x :: t
+  | y :: t, S i' => y :: hset t i' x
+  end.
+
+Section Heap.
+  Variable hspec : nat -> vec -> Q -> Q.
+
+  Definition copy_entry (st : pstream * hcache) : pstream * hcache :=
+    (mkP (pmol (fst st)) (pT (fst st)) (pph (fst st)), cache0).
+
+  Definition shstep (h : sheap) (o : hsop) : sheap * list Q :=
+    match o with
+    | HOn i o => match nth_error h i with
+                 | Some st => let (st', r) := sstep hspec st o in (hset h i st', r)
+                 | None => (h, [])
+                 end
+    | HCopyS i => match nth_error h i with
+                  | Some st => (h ++ [copy_entry st], [])
+                  | None => (h, [])
+                  end
+    end.
+
+  Fixpoint shrun (h : sheap) (ops : list hsop) : sheap * list Q :=
+    match ops with
+    | [] => (h, [])
+    | o :: t => let (h1, r1) := shstep h o in let (h2, r2) := shrun h1 t in (h2, r1 ++ r2)
+    end.
+
+  Variable solveP : nat -> vec -> Q -> res Q.
+  Variable hf : vec.
+
+  (* reaction.adiabatic_reaction(stream_i, Q) / reaction(stream_i) with the other streams around *)
+  Definition hadiabatic (is_stream : bool) (callf : vec -> option err * vec) (h : sheap) (i : nat) (Qin : Q)
+    : option err * sheap :=
+    match nth_error h i with
+    | Some st => let (e, st') := adiabatic_cached hspec solveP hf is_stream callf st Qin in (e, hset h i st')
+    | None => (Some EIndex, h)
+    end.
+
+  Definition hisothermal (callf : vec -> option err * vec) (h : sheap) (i : nat) : option err * sheap :=
+    match nth_error h i with
+    | Some st => let (e, st') := isothermal_cached callf st in (e, hset h i st')
+    | None => (Some EIndex, h)
+    end.
+End Heap.
+
+(* states of all streams of the heap against what was observed *)
+Fixpoint states_eqb (h : sheap) (obs : list (vec * Q * nat)) : bool :=
+  match h, obs with
+  | [], [] => true
+  | (s, _) :: h', (m, t, ph) :: obs' =>
+      vapproxb (pmol s) m && qapproxb (pT s) t && Nat.eqb (pph s) ph && states_eqb h' obs'
+  | _, _ => false
+  end.
+
+(* history over the heap (copies included), the operation through stream [via], then H read back
+   through EVERY stream of the heap; compared: every read before, exception class, Hnet (memo-free) of
+   the target before and after, the state of every stream after, every H read back *)
+Definition thermal_heap_eqb (cn hf : vec) (fails : list nat) (o : res robj) (callf : robj -> vec -> option err * vec)
+           (adiab is_stream : bool) (s : pstream) (pre : list hsop) (reads : vec) (via : nat) (Qin : Q)
+           (e : option err) (after : list (vec * Q * nat)) (hnet0 hnet' : Q) (post : vec) : bool :=
+  match o with
+  | Err _ => false
+  | Ok ob =>
+      let hs := stub_hspec cn in
+      let '(h1, rd) := shrun hs [(s, cache0)] pre in
+      let r := if adiab then hadiabatic hs (stubSolveP cn fails) hf is_stream (callf ob) h1 via Qin
+               else hisothermal (callf ob) h1 via in
+      let h2 := snd r in
+      let '(_, rd2) := shrun hs h2 (map (fun i => HOn i SReadH) (seq 0 (length h2))) in
+      let HN := fun p : pstream => HfunC hs (pph p) (pmol p) (pT p) + Hf_of hf (pmol p) in
+      let scale := Qabs hnet0 + Qabs Qin in
+      vapproxb rd reads && oerr_eqb (fst r) e &&
+      qapprox_scaled scale (HN (fst (nth via h1 hdflt))) hnet0 &&
+      states_eqb h2 after &&
+      qapprox_scaled scale (HN (fst (nth via h2 hdflt))) hnet' &&
+      vapproxb rd2 post
+  end.
